@@ -542,15 +542,17 @@ class TensorDictParams(TensorDictBase, nn.Module):
         update_batch_size: bool = False,
         ignore_lock: bool = False,
     ) -> TensorDictBase:
-        # Deprecating this since _set_tuple will do it thx to the decorator
-        # if not self.no_convert:
-        #     func = _maybe_make_param
-        # else:
-        #     func = _maybe_make_param_or_buffer
-        # if _is_tensor_collection(type(input_dict_or_td)):
-        #     input_dict_or_td = input_dict_or_td.apply(func)
-        # else:
-        #     input_dict_or_td = tree_map(func, input_dict_or_td)
+        # The entries set at the root go through _set_str / _set_tuple (decorated: they convert), but a
+        # nested entry that exists on both sides is updated by the nested (plain) tensordict itself, which
+        # would store the incoming tensors as they are: convert them here, as every other setter does.
+        if not self.no_convert:
+            func = _maybe_make_param
+        else:
+            func = _maybe_make_param_or_buffer
+        if _is_tensor_collection(type(input_dict_or_td)):
+            input_dict_or_td = input_dict_or_td.apply(func, filter_empty=False)
+        else:
+            input_dict_or_td = tree_map(func, input_dict_or_td)
         with self._param_td.unlock_():
             TensorDictBase.update(
                 self,
